@@ -449,8 +449,10 @@ impl Hist {
                 self.fail(ctx, "other-paragraph-changed", op, json!({"text_before": clip(&before), "paragraphs_before": pb, "paragraphs_after": pa}));
                 return false;
             }
-            let must: Vec<String> = cb.iter().map(|(c, _)| c.clone()).filter(|c| !optional_comments.contains(c)).collect();
-            let got: Vec<String> = ca.iter().map(|(c, _)| c.clone()).filter(|c| !optional_comments.contains(c)).collect();
+            // (a comment that was the unterminated last line when it was seen attached may have been terminated since)
+            let optional: Vec<&str> = optional_comments.iter().map(|c| c.trim_end_matches('\n')).collect();
+            let must: Vec<String> = cb.iter().map(|(c, _)| c.clone()).filter(|c| !optional.contains(&c.trim_end_matches('\n'))).collect();
+            let got: Vec<String> = ca.iter().map(|(c, _)| c.clone()).filter(|c| !optional.contains(&c.trim_end_matches('\n'))).collect();
             if norm(&must) != norm(&got) {
                 self.fail(ctx, "comment-lost-or-changed", op, json!({"text_before": clip(&before), "comments_before": must, "comments_after": got}));
                 return false;
@@ -608,9 +610,31 @@ fn built_lane(ctx: &mut Ctx, idx: u64) {
     let model: Content = (0..np)
         .map(|_| (0..r.range(if np == 1 { 0 } else { 1 }, 3)).map(|_| (gen::gen_name(&mut r, &o), if r.chance(1, 8) { String::new() } else { gen_value(&mut r, &mut uniq) })).collect())
         .collect();
-    let how = idx % 4;
+    let how = idx % 5;
     let build_para = |fields: &Vec<(String, String)>| -> Paragraph {
         match how {
+            // read from text that lacks its final newline ("final newline optional"), then collected like the others
+            4 if !fields.is_empty() => {
+                let mut text = String::new();
+                for (k, v) in fields {
+                    let mut lines = v.split('\n');
+                    let first = lines.next().unwrap_or("");
+                    text.push_str(k);
+                    text.push(':');
+                    if !first.is_empty() {
+                        text.push(' ');
+                        text.push_str(first);
+                    }
+                    for l in lines {
+                        text.push_str("\n ");
+                        text.push_str(l);
+                    }
+                    text.push('\n');
+                }
+                text.pop();
+                Paragraph::from_str(&text).expect("well-formed paragraph text")
+            }
+            4 => Paragraph::new(),
             0 => fields.iter().cloned().collect(),
             1 => fields.iter().map(|(k, v)| (k.as_str(), v.as_str())).collect(),
             2 => Paragraph::from(fields.clone()),
@@ -636,7 +660,7 @@ fn built_lane(ctx: &mut Ctx, idx: u64) {
     };
     let early = doc.paragraphs().enumerate().map(|(i, p)| (p, Some(i))).collect();
     let start_text = doc.to_string();
-    let feat = ["built:from_iter-string", "built:from_iter-str", "built:from-vec", "built:new+insert"][how as usize];
+    let feat = ["built:from_iter-string", "built:from_iter-str", "built:from-vec", "built:new+insert", "built:parsed-unterminated"][how as usize];
     let mut h = Hist { doc, model: model.clone(), early, log: vec![], start_text, start_feat: feat, shape: String::new(), attached: vec![] };
     // the built document must already report and re-read as the model
     if live_content(&h.doc) != model {
